@@ -325,6 +325,9 @@ func buildEvidence(eng *engine, id, tier string, seed int, units []*unit, jobs, 
 	notes := map[string]bool{}
 	for _, u := range units {
 		ur := unitResult{Name: u.name(), Mode: "bv", Paths: u.npaths}
+		if u.ct != nil && u.ct.partial {
+			ur.Contract = "partial: only the explicit clauses are proved; run-time safety of the body and the preconditions of its callees are assumed"
+		}
 		if u.m.intMode {
 			ur.Mode = "int"
 		}
